@@ -613,10 +613,35 @@ func branch(t string) string {
 	return "new-bridge"
 }
 
+var (
+	setupMu     sync.Mutex
+	setupFailed []string
+)
+
+// reportSetupFailures turns remembered set-up failures into a harness error (inconclusive), once the
+// enumeration has finished without a violation.
+func reportSetupFailures(t vkit.TB) {
+	setupMu.Lock()
+	n, first := len(setupFailed), ""
+	if n > 0 {
+		first = setupFailed[0]
+	}
+	setupFailed = nil
+	setupMu.Unlock()
+	if n > 0 {
+		vkit.Violation(t, "C04/harness/setup-failed", fmt.Sprintf("%d cells could not be set up; first: %s", n, first), nil)
+	}
+}
+
 func check(t vkit.TB, c Cell) {
 	out, err := runCell(c)
 	if err != nil {
-		vkit.Violation(t, "C04/harness/setup-failed", err.Error(), c)
+		// a cell that cannot be set up is remembered and the enumeration goes on: a change to the code under test
+		// may break the set-up of some cells and the property in others (reported at the end of the test function)
+		setupMu.Lock()
+		setupFailed = append(setupFailed, fmt.Sprintf("%+v: %v", c, err))
+		setupMu.Unlock()
+		vkit.Class("cell-could-not-be-set-up")
 		return
 	}
 	class := fmt.Sprintf("%s/%s", c.TState, c.Identity)
@@ -690,11 +715,12 @@ func TestMatrix(t *testing.T) {
 								continue // tunnels do not survive a restart; a reduced identity x credential product
 							}
 							i++
-							if !vkit.Mine(i) {
-								continue
+							if vkit.Mine(i) {
+								check(t, Cell{Identity: id, Cred: cr, MState: ms, TState: ts, EmptySecret: es, ConnType: "tunnel", Backend: be})
 							}
-							check(t, Cell{Identity: id, Cred: cr, MState: ms, TState: ts, EmptySecret: es, ConnType: "tunnel", Backend: be})
 							if ts == "none" && be == "memory" {
+								// the same cell for a mapping listened by the server itself (ListenClientID 0); its own index, so
+								// that it is some shard's cell whatever the number of shards
 								i++
 								if vkit.Mine(i) {
 									check(t, Cell{Identity: id, Cred: cr, MState: ms, TState: ts, EmptySecret: es, ConnType: "tunnel", Backend: be, ServerListened: true})
@@ -707,6 +733,7 @@ func TestMatrix(t *testing.T) {
 		}
 	}
 	vkit.Exhaustive("identity x credential x mapping-state x tunnel-state x secret-less", true)
+	reportSetupFailures(t)
 }
 
 // TestRandomCells draws cells with generated tunnel ids and handshake connection types.
@@ -731,6 +758,7 @@ func TestRandomCells(t *testing.T) {
 		}
 		check(t, c)
 	})
+	reportSetupFailures(t)
 }
 
 func TestReplay(t *testing.T) {
